@@ -152,6 +152,26 @@ def run():
     ctx0.drift = []
     fncommon.validate(ctx0, b2, "Trace_Bisect", "sti", nshards=1)
     t.check("returned bisection midpoint changed by one ulp -> that run is rejected (drift)", [d["case"] for d in ctx0.drift] == [irows[j]["id"]])
+    tcs = [c for c in c07.seeded(ctx0, rng0, 90) if c["solver"] == "itp"][:25]
+    for k, c in enumerate(tcs):
+        c["id"] = k + 1
+    trs = [{k: r[k] for k in keys + ("k1", "k2", "n0")} for r in fncommon.observe(ctx0, "bracket", tcs, "stp", nproc=1)]
+    ctx0.drift = []
+    fncommon.validate(ctx0, trs, "Trace_Itp", "stp", nshards=1)
+    t.check("clean itp() abscissa traces admitted step by step by ItpP over doubles (refinement)", not ctx0.drift and len(trs) == 25, "%d runs" % len(trs))
+    j = next(k for k, r in enumerate(trs) if r["n"] >= 7 and r["ret"] == "ok")
+    b2 = copy.deepcopy(trs)
+    far = vlib.float_to_pair(vlib.pair_to_float(b2[j]["a"]) - 1.0 if vlib.pair_to_float(b2[j]["a"]) < vlib.pair_to_float(b2[j]["b"]) else vlib.pair_to_float(b2[j]["a"]) + 1.0)
+    b2[j]["evals"][4][0] = far
+    ctx0.drift = []
+    fncommon.validate(ctx0, b2, "Trace_Itp", "stp", nshards=1)
+    t.check("one itp abscissa moved outside the bracket -> that run is rejected (drift)", [d["case"] for d in ctx0.drift] == [trs[j]["id"]])
+    b2 = copy.deepcopy(trs)
+    b2[j]["evals"] = b2[j]["evals"][:5] + [b2[j]["evals"][2]] + b2[j]["evals"][5:]      # an abscissa of an earlier, wider bracket repeated
+    b2[j]["n"] += 1
+    ctx0.drift = []
+    fncommon.validate(ctx0, b2, "Trace_Itp", "stp", nshards=1)
+    t.check("an earlier itp abscissa replayed later (outside the current bracket / radius) -> rejected (drift)", [d["case"] for d in ctx0.drift] == [trs[j]["id"]])
     sc = [c for c in c09.gen(ctx0, rng0, 400) if c["routine"] == "simpson" and not c["cx"] and c["n"] == 40][:15]
     for k, c in enumerate(sc):
         c["id"] = k + 1
